@@ -171,23 +171,19 @@ theorem lookupState_eq {s : State} {f : SMap} (h : StateRel s f) (t k : Bytes) :
   rw [h t k]
 
 theorem fromAuthEvents_eq (m : List Event) (rejected : List ID) (e : Event) (t k : Bytes) :
-    fromAuthEvents m rejected e t k = fallback m rejected e (t, k) := by
-  unfold fromAuthEvents fallback
-  refine (foldl_lastMatch (fun (a : Event) => a.type == t && a.stateKeyEquals k) (fun a => a) _ none).trans ?_
-  simp only [Option.map_id', Option.or_none]
-  rfl
+    fromAuthEvents m rejected e t k = fallback m rejected e (t, k) := rfl
 
-theorem filterMap_congr' {α β : Type} {f g : α → Option β} : ∀ {l : List α}, (∀ x ∈ l, f x = g x) →
-    l.filterMap f = l.filterMap g
+theorem flatMap_congr' {α β : Type} {f g : α → List β} : ∀ {l : List α}, (∀ x ∈ l, f x = g x) →
+    l.flatMap f = l.flatMap g
   | [], _ => rfl
   | x :: xs, h => by
-    rw [List.filterMap_cons, List.filterMap_cons, h x (by simp),
-      filterMap_congr' (fun y hy => h y (List.mem_cons_of_mem _ hy))]
+    rw [List.flatMap_cons, List.flatMap_cons, h x (by simp),
+      flatMap_congr' (fun y hy => h y (List.mem_cons_of_mem _ hy))]
 
 theorem providerFor_eq {s : State} {f : SMap} (h : StateRel s f) (m : List Event) (rejected : List ID) (e : Event) :
     providerFor m rejected s e = providerEvents m rejected f e := by
   unfold providerFor providerEvents neededKeys
-  apply filterMap_congr'
+  apply flatMap_congr'
   intro tk _
   rw [lookupState_eq h, fromAuthEvents_eq]
   obtain ⟨t, k⟩ := tk
